@@ -154,6 +154,10 @@ def type_of(v):
 
 def to_z3(v, ty=None):
     """interpreter value -> z3 expr (coerced to ty if given)."""
+    if isinstance(ty, TTuple) and ty.names and isinstance(v, Box) and v.cd is not None:
+        if set(v.cd) != set(ty.names):
+            raise EngineError('dict keys %s do not match record %s' % (sorted(v.cd), ty.names))
+        return ty.mk(*[to_z3(v.cd[n], t) for n, t in zip(ty.names, ty.ts)])
     if isinstance(ty, TKey) and isinstance(v, Box) and v.ty is None and not v.cd:
         return z3.Const('empty_' + ty.name, ty.sort())      # the empty dict literal as an opaque value of this sort
     if isinstance(v, Box):
@@ -180,6 +184,11 @@ def to_z3(v, ty=None):
         raise EngineError('None where %s expected' % ty)
     if isinstance(ty, TTuple) and isinstance(v, Obj) and 'nt_fields' in v.__dict__:
         v = tuple(v.attrs[f] for f in v.__dict__['nt_fields'])
+    if isinstance(ty, TTuple) and ty.names and isinstance(v, Box) and v.cd is not None:
+        # a dict literal with exactly the record's keys, stored as that record
+        if set(v.cd) != set(ty.names):
+            raise EngineError('dict keys %s do not match record %s' % (sorted(v.cd), ty.names))
+        v = tuple(v.cd[n] for n in ty.names)
     if isinstance(ty, TTuple):
         if not isinstance(v, tuple) or len(v) != len(ty.ts):
             raise EngineError('tuple shape mismatch %r vs %s' % (v, ty))
